@@ -220,7 +220,12 @@ func cmdCheck(args []string) {
 			qf := filepath.Join(replayDir, sanitize(v.name)+".smt2")
 			os.WriteFile(qf, []byte(v.r.Query+"(check-sat)\n(get-model)\n"), 0644)
 			rec["query_file"] = qf
-			if v.r.Model != "" {
+			if strings.HasPrefix(v.name, "shape:") && v.r.Status == "failed" {
+				// a type-level obligation is decided on the real code itself (the type checker's view of /repo):
+				// the differing field is the witness
+				rec["replay"] = v.r.Detail
+				reproduced = true
+			} else if v.r.Model != "" {
 				if out, ok := tryReplay(c, *vdir, *prop, v.r); out != "" {
 					rec["replay"] = out
 					reproduced = ok
@@ -291,7 +296,7 @@ func round2(f float64) float64 { return float64(int(f*100+0.5)) / 100 }
 // per-property statements of what the obligations do not cover (kept next to the claim)
 var propertyAssumptions = map[string][]string{}
 
-var frozenKind = regexp.MustCompile(`#(ensures|inv):|#dec@|#alloc@\d+:|^lemma:`)
+var frozenKind = regexp.MustCompile(`#(ensures|inv):|#dec@|#alloc@\d+:|#at\(|^lemma:|^shape:`)
 
 // cmdFreeze records the names of the obligations that discharge on the current tree.
 func cmdFreeze(args []string) {
